@@ -74,7 +74,11 @@ class Run(object):
     st["solver_s"] += time.time() - t0
     return r
 
-  def assume(self, cond, definedness=False):
+  def assume(self, cond, definedness=False, in_solver=True):
+    """in_solver=False keeps the assumption out of the feasibility solver (it
+    is still part of the path condition handed to the VCs): used for the
+    defining equations of fresh unknowns, which cannot make a path infeasible
+    but make every feasibility query nonlinear."""
     cond = z3.simplify(cond)
     if z3.is_true(cond):
       return
@@ -83,7 +87,8 @@ class Run(object):
     self.pc.append(cond)
     if definedness:
       self.assumed.append(cond)
-    self.solver.add(cond)
+    if in_solver:
+      self.solver.add(cond)
 
   def decide(self, cond):
     cond = z3.simplify(cond)
